@@ -223,3 +223,32 @@ Proof.
   intros irq ier iw batch tb q i e rt c d s0 s. rewrite gen_router_is_model.
   exact (mediation_program irq ier iw batch tb q i e rt c d).
 Qed.
+
+(* ---------------------------------------------------------------- MultiView.__call__ (translated: gen_mv_call) *)
+Section GenMultiView.
+  Variable D : list (N * dview).
+  Variable tb : grants.
+  Variable q : rq5.
+  Variable lookup : text -> ctx -> trace * res.
+  Variable c : ctx.
+
+  (* the loop `for order, view, phash in self.get_views(request): try: return view(context, request) except
+     PredicateMismatch: continue` followed by `raise PredicateMismatch` is the model's mv_call5, for every list of entries *)
+  Theorem gen_mv_call_is_model l :
+    gen_mv_call (fun cmp => call_component5 D tb q lookup cmp c) l = mv_call5 D tb q lookup l c.
+  Proof.
+    unfold gen_mv_call. induction l as [|e r IH]; [reflexivity|].
+    cbn [mv_call5]. rewrite <- IH. clear IH.
+    change (call_reg D tb q lookup (e_view e) c) with (call_component5 D tb q lookup (entry_view e) c).
+    lazy beta iota.
+    destruct (call_component5 D tb q lookup (entry_view e) c) as [tr o]. unfold m_try.
+    destruct o as [t|x| |]; try reflexivity.
+    destruct x; cbn [exc_isa]; unfold m_raise; rewrite ?app_nil_r; reflexivity.
+  Qed.
+
+  (* the component call of the request path, with the MultiView case running the regenerated loop *)
+  Theorem gen_mv_component_is_model m :
+    gen_mv_call (fun cmp => call_component5 D tb q lookup cmp c) (get_views m (q_base q))
+    = call_component5 D tb q lookup (CMulti m) c.
+  Proof. apply gen_mv_call_is_model. Qed.
+End GenMultiView.
